@@ -60,6 +60,8 @@ def run(replay=None):
             if not r["restored"]:
                 ck.impl_violation("not-restored", "after Reset a call of %s does not run the original" % r["name"], case)
     ck.coverage["evaluations"] = calls
+    if len(sigs_seen) < 40 or calls < 500:
+        ck.obligation_broken("harness: the signature zoo was not exercised (%d signatures, %d calls): the oracle would be vacuous" % (len(sigs_seen), calls), "")
     ck.coverage["distinct_nontrivial"] = len(sigs_seen)
     ck.coverage["traces_validated_against_impl"] = calls
     ck.notes["signature_classes"] = kinds
